@@ -979,6 +979,7 @@ int main(int argc, char **argv) {
           // move_n: n1 = the source, n2 = the elements the destination holds before; the destination has room for the source
           runMoveN<T>("move_n", n1, n1 + e1, n2, std::max(n1, n2) + e2);
           runMoveN<TR>("move_n_tr", n1, n1 + e1, n2, std::max(n1, n2) + e2);
+          runMoveN<TM>("move_n_mt", n1, n1 + e1, n2, std::max(n1, n2) + e2);  // every move is an event (coq/MoveThrow.v)
         }
       }
     }
